@@ -437,6 +437,14 @@ pub fn bin_all() -> Vec<Scenario> {
            "2"),
         // a bodied filter holds a heap binary while a source written before it completes the
         // select (type-only receive / awaited child / timeout); the binary is taken later and dropped
+        // a filter rejects a heap binary and a source written after it completes the select in the
+        // same pass (an int already in the mailbox / timeout 0); the binary is taken later
+        mk("filter_reject_then_lower_source", false,
+           "r = @{ ! [#'bin { =0xaa => Ok }, #'int] =a, !'bin =b, [b, b] __binary_concat__ __binary_length__ },\n[0xb0, 0x0b] __binary_concat__ r,\n5 r,\n!r",
+           "4"),
+        mk("filter_reject_then_timeout", false,
+           "r = @{ !'int, ! [#'bin { =0xaa => Ok }, 0] =a, !'bin =b, [b, b] __binary_concat__ __binary_length__ },\n[0xb0, 0x0b] __binary_concat__ r,\n5 r,\n!r",
+           "4"),
         mk("filter_preempted_by_type", false,
            "r = @{ ! [#'int, #'bin { =x => Ok }] =a, !'bin =b, [b, b] __binary_concat__ __binary_length__ },\n[0xb0, 0x0b] __binary_concat__ r,\n5 r,\n0xc0c0 r,\n!r",
            "4"),
@@ -642,6 +650,15 @@ pub fn res_all() -> Vec<Scenario> {
             "f = {open},\ng = #'int {{ [f, 0, 0x0d] __file_write__ }},\nc = @{{ !#(#'int -> 'int) =h, 1 h }},\n&g c,\n!c", open = open)),
         mk("send_closure_then_use", &format!(
             "f = {open},\ng = #'int {{ [f, 0, 0x0d] __file_write__ }},\nc = @{{ !#(#'int -> 'int) =h, !'bin }},\n&g c,\n[f, 0, 0x01] __file_write__", open = open)),
+        // spawn with the handle nested in the argument tuple / inside a closure the child captures
+        mk("spawn_arg_nested", &format!(
+            "'at = [\\File, 'int]\nf = {open},\nc = [f, 5] @'at {{ =[h, n] => [h, 0, 0x07] __file_write__ }},\n!c", open = open)),
+        mk("spawn_arg_nested_then_use", &format!(
+            "'at = [\\File, 'int]\nf = {open},\nc = [f, 5] @'at {{ =[h, n] => !'bin }},\n[f, 0, 0x01] __file_write__", open = open)),
+        mk("spawn_captured_closure", &format!(
+            "f = {open},\ng = #'int {{ [f, 0, 0x0d] __file_write__ }},\nc = @{{ 1 g }},\n!c", open = open)),
+        mk("spawn_captured_closure_then_use", &format!(
+            "f = {open},\ng = #'int {{ [f, 0, 0x0d] __file_write__ }},\nc = @{{ !'bin, 1 g }},\n[f, 0, 0x01] __file_write__", open = open)),
         // a child opens, hands the handle to a keeper, and terminates (awaited) right away: the
         // transfer and the child's completion report can arrive in the same environment step
         mk("child_sends_then_dies", &format!(
